@@ -211,8 +211,16 @@ def body(chk):
                                     'masa_get_name<Scalar>(&s); printf("R reinit_selects %s\\n", s.c_str()); masa_set_param<Scalar>("L",(Scalar)3.125);',
                                     'masa_select_mms<Scalar>("b"); printf("R b_untouched %d\\n", masa_get_param<Scalar>("L")==(Scalar)7.25); masa_get_name<Scalar>(&s); printf("R b %s\\n", s.c_str());',
                                     # (iii) a brand-new handle becomes selected
-                                    'masa_init<Scalar>("c","heateq_1d_steady_const"); masa_get_name<Scalar>(&s); printf("R new_selected %s\\n", s.c_str());'],
-                                    ['R fresh 1', 'R a %s' % n, 'R reinit_selects euler_3d', 'R b_untouched 1', 'R b euler_2d', 'R new_selected heateq_1d_steady_const'], 're-initialisation of a handle'))
+                                    'masa_init<Scalar>("c","heateq_1d_steady_const"); masa_get_name<Scalar>(&s); printf("R new_selected %s\\n", s.c_str());',
+                                    # (iv) handles whose NAMES are related (prefix of a registered handle, the empty handle, case and blank variants, map neighbours)
+                                    #      are still different handles: each keeps its own instance and parameter
+                                    'masa_init<Scalar>("run10","%s"); masa_init<Scalar>("run1","euler_2d"); masa_set_param<Scalar>("L",(Scalar)4.5); masa_init<Scalar>("","euler_3d"); masa_set_param<Scalar>("L",(Scalar)5.5);' % n,
+                                    'masa_init<Scalar>("Run10","euler_1d"); masa_init<Scalar>("run10 ","euler_1d"); masa_init<Scalar>("run","euler_1d"); masa_init<Scalar>("run100","euler_1d");',
+                                    'masa_select_mms<Scalar>("run10"); masa_get_name<Scalar>(&s); printf("R related_long %s\\n", s.c_str());',
+                                    'masa_select_mms<Scalar>("run1"); masa_get_name<Scalar>(&s); printf("R related_prefix %s %d\\n", s.c_str(), masa_get_param<Scalar>("L")==(Scalar)4.5);',
+                                    'masa_select_mms<Scalar>(""); masa_get_name<Scalar>(&s); printf("R related_empty %s %d\\n", s.c_str(), masa_get_param<Scalar>("L")==(Scalar)5.5);'],
+                                    ['R fresh 1', 'R a %s' % n, 'R reinit_selects euler_3d', 'R b_untouched 1', 'R b euler_2d', 'R new_selected heateq_1d_steady_const',
+                                     'R related_long %s' % n, 'R related_prefix euler_2d 1', 'R related_empty euler_3d 1'], 're-initialisation of a handle'))
         # ---- the two registries are independent: <scalar> operations never touch the other registry or its objects
         st, handles, objs = R.build(w, scalar, ['euler_1d'], symbolic=True)
         st_alone = st.clone()
